@@ -1,6 +1,9 @@
 import BqVerif.Proofs.QasmRegs
 import BqVerif.Proofs.QasmExprBasic
 import BqVerif.Proofs.QasmPrec
+import BqVerif.Proofs.QasmStrip
+import BqVerif.Proofs.QasmSubst
+import BqVerif.Proofs.QasmInline
 import BqVerif.Proofs.QasmWitness
 import BqVerif.Generated.QasmTable
 /-! # C17 — OpenQASM 2 import/export preserves the program and agrees with Qiskit
@@ -114,6 +117,31 @@ expression tree is recovered from its minimal-parenthesis rendering. -/
 theorem C17_precedence {V : Type} (e : PE V) : pyParse (render 0 e) = some e :=
   pyParse_render e
 
+/-- **What the reader evaluates**: for every token string Lark accepts — whatever tree the LALR
+automaton builds (`-a+b` is `usub(a+b)` there) — the Python source text the visitor assembles is
+the token string without its grouping parentheses.  So the reader's value of an expression is
+`eval` of Python's reading (`C17_precedence`) of `stripG ts`. -/
+theorem C17_reader_text {V : Type} (A : Arith V) (ts : List (ETok V)) (q : QE V)
+    (h : larkParse ts = some q) :
+    flatten A q = stripG ts ∧ evalQ A q = (pyParse (stripG ts)).bind (PE.eval A) := by
+  have hf := flatten_larkParse A ts q h
+  exact ⟨hf, by simp [evalQ, hf]⟩
+
+/-- Consequence: an expression written with the minimal parentheses of the grammar and
+needing none (`stripG` leaves its rendering unchanged) is read as itself, provided Lark
+accepts it (acceptance is checked on every generated expression by the run). -/
+theorem C17_reader_paren_free_partial {V : Type} (A : Arith V) (e : PE V) (q : QE V)
+    (hfree : stripG (render 0 e) = render 0 e) (h : larkParse (render 0 e) = some q) :
+    pyParse (flatten A q) = some e ∧ evalQ A q = e.eval A := by
+  have hf := flatten_larkParse A _ q h
+  rw [hfree] at hf
+  have hp : pyParse (flatten A q) = some e := by rw [hf]; exact pyParse_render e
+  exact ⟨hp, by simp [evalQ, hp]⟩
+
+example : stripG (render 0 (PE.bin .add (.neg (.lit "1")) (.pow (.lit "2") (.neg (.lit "3")))
+    : PE Int)) = render 0 (PE.bin .add (.neg (.lit "1")) (.pow (.lit "2") (.neg (.lit "3")))) := by
+  decide
+
 /- Full strength (FALSE of the code): for every Lark tree `q`, `evalQ A q = specEvalQ A q`
    (the reader gives an expression the value OpenQASM 2 gives it). -/
 /-- Without parenthesised sub-expressions, negative substituted values and `sqrt`/`exp`, the
@@ -144,8 +172,40 @@ theorem C17_expr_function_witness :
 
 /-! ## C17_subst — formal parameters of user gates -/
 
-/- Full strength (FALSE of the code): `evalQ (substVals vs (bindIds ps q))` is the value of
-   `q` with the formals `ps` bound to `vs`. -/
+/-- **Substitution lemma** (trees): putting values in and evaluating = evaluating under the
+binding. -/
+theorem C17_subst {V : Type} (A : Arith V) (σ : Env V) (e : PE V) :
+    (e.bindEnv σ).eval A = e.evalEnv A σ :=
+  eval_bindEnv A σ e
+
+/-- The Python-level reading commutes with replacing formal names by values. -/
+theorem C17_subst_parse {V : Type} (σ : Env V) (ts : List (ETok V)) :
+    pyParse (ts.map (tokBind σ)) = (pyParse ts).map (PE.bindEnv σ) :=
+  pyParse_map σ ts
+
+/- Full strength (FALSE of the code): for every body expression `q`, formals `ps`, actual
+   values `vs`: the reader's value `evalQ (substVals vs (bindIds ps q))` is the value of `q`'s
+   reading under the binding `ps ↦ vs`. -/
+/-- It is, when no actual value prints with a sign: the reader's textual substitution
+(`replace_param_ids`, `replace_param_indices`, `eval_exp_recurse`, `eval`) equals parsing the
+body expression once and binding its formals. -/
+theorem C17_subst_text_partial {V : Type} (A : Arith V) (ps : List String) (vs : List V)
+    (hnn : ∀ v ∈ vs, A.isNeg v = false) (q q' : QE V) (hsrc : q.source = true)
+    (hs : substVals vs (bindIds ps q) = some q') :
+    evalQ A q' = (pyParse (flatten A q)).bind (PE.evalEnv A (formalEnv ps vs)) :=
+  evalQ_subst A ps vs hnn q q' hsrc hs
+
+example : (∀ v ∈ [(2 : Int), 0], intArith.isNeg v = false) ∧
+    (QE.pow (.id "a") (.num "2") : QE Int).source = true := by decide
+
+/-- **A user-gate call is its body, inlined** — for any nesting depth: the nested operation
+the reader builds for a call unfolds (blocks opened, locations composed) to the body
+statements instantiated with their parameter expressions evaluated under the call's actual
+values. -/
+theorem C17_inline {V : Type} (A : Arith V) (g : GDef V) (loc : List Nat) (vs : List V)
+    (op : Op V) (h : buildOp A g loc vs = some op) : inlineG A g loc vs = some op.flat :=
+  buildOp_inline A g loc vs op h
+
 /-- `gate g(a) x { rz(a^2) x; }  g(-2) …`: the value `-2` is spliced in as the text `-2`,
 Python reads `-2**2 = -4`; the expression means `(-2)^2 = 4`. -/
 theorem C17_subst_negative_witness :
